@@ -161,6 +161,7 @@ def mie_kernel_arguments(c):
         if layered == 1:
             pol = to_vector((px, py))
             cs0 = c.call(th.raw_cross_sections, sphere(1), k, n_med, pol)
+            c.requires(c.not_(c.eq(cs0[0], 0)) if c.symbolic else abs(cs0[0]) > 1e-9)   # the asymmetry divides by C_sca
             cs1 = c.call(th.raw_cross_sections, sphere(s), k / s, n_med, pol)
             c.ensures("cross-sections-scale-with-area", c.and_(*[c.eq(cs1[i], cs0[i] * s * s) for i in range(3)]))
             c.ensures("asymmetry-unit-independent", c.eq(cs1[3], cs0[3]))
@@ -168,21 +169,38 @@ def mie_kernel_arguments(c):
 
 @contract("C04", "mielens_kernel_arguments", [TH + "mielens:MieLens.raw_fields", TH + "mielens:MieLens._create_calculator",
                                                TH + "mielens:AberratedMieLens._create_calculator"],
-          bounded="two detector points at one height")
+          bounded="one detector point (the theory is pointwise at fixed height)", max_paths=60, timeout_ms=60000)
 def mielens_kernel_arguments(c):
     """Mie-plus-lens hand-off: the calculator receives k*z_particle, n/n_medium and k*r, unchanged by a change of length unit
-    and by index normalisation, so the fields are unchanged"""
+    and by index normalisation, so the fields are unchanged (both in the region where the pupil integrals are evaluated and
+    beyond the cut-off radius)"""
     s, lam, n_med, n, r, cen, px, py = _setup(c)
-    xs, ys, mk = _points(c)
+    x0, y0 = c.real("x0", sample=(-2, 2)), c.real("y0", sample=(-2, 2))
+    A = (lambda v: np.array(v, dtype=object if c.symbolic else float))
+    mk = (lambda f: detector_points(x=A([f * x0]), y=A([f * y0]), z=A([0 * f])))
     which = c.choice("theory", ["MieLens", "AberratedMieLens"])
+    region = c.choice("region", ["inside-cutoff", "beyond-cutoff"])
+    k = 2 * c.pi * n_med / lam
+    krho2 = k * k * ((x0 - cen[0]) ** 2 + (y0 - cen[1]) ** 2)
+    if region == "inside-cutoff":
+        c.requires(krho2 < 390.0 ** 2)
+    else:
+        c.requires(krho2 >= 390.0 ** 2)
     with mielens_kernels() as rec:
         th = MieLens(lens_angle=0.9) if which == "MieLens" else AberratedMieLens(spherical_aberration=0.3, lens_angle=0.9)
         kw = dict(illum_polarization=(px, py), theory=th)
+        seen = []
+        orig = th.raw_fields
+
+        def raw_fields(positions, *a, **k_):
+            seen.append(np.array(positions, dtype=object if c.symbolic else float).copy())
+            return orig(positions, *a, **k_)
+        th.raw_fields = raw_fields
         f0 = c.call(calc_field, mk(1), Sphere(n=n, r=r, center=cen), medium_index=n_med, illum_wavelen=lam, **kw)
         f1 = c.call(calc_field, mk(s), Sphere(n=n, r=r * s, center=[v * s for v in cen]), medium_index=n_med, illum_wavelen=lam * s, **kw)
         f2 = c.call(calc_field, mk(1), Sphere(n=n / n_med, r=r, center=cen), medium_index=1, illum_wavelen=lam / n_med, **kw)
     calls = [kw_ for nm, kw_ in rec.calls if nm == 'calculator']
-    k = 2 * c.pi * n_med / lam
+    c.ensures("positions-are-dimensionless", c.and_(c.eq(seen[1], seen[0]), c.eq(seen[2], seen[0])))
     c.ensures("calculator-arguments", c.and_(c.eq(calls[0]['particle_kz'], k * cen[2]), c.eq(calls[0]['index_ratio'], n / n_med),
                                              c.eq(calls[0]['size_parameter'], k * r), c.eq(calls[0]['lens_angle'], 0.9)))
     for other in calls[1:]:
@@ -190,6 +208,8 @@ def mielens_kernel_arguments(c):
                                                              ('particle_kz', 'index_ratio', 'size_parameter', 'lens_angle')]))
     c.ensures("field-unchanged-by-unit-change", c.eq(f1.values, f0.values))
     c.ensures("field-unchanged-by-index-normalisation", c.eq(f2.values, f0.values))
+    if region == "beyond-cutoff":
+        c.ensures("zero-beyond-cutoff", c.and_(*[c.eq(v, 0) for v in f0.values.flat]))
 
 
 @contract("C04", "detector_grid_scales", ["holopy.core.metadata:detector_grid", "holopy.core.metadata:make_coords"],
